@@ -169,3 +169,51 @@ func AllHints() []string {
 	}
 	return hs
 }
+
+// BumpHint returns "type-vX.Y.Z+2" for a hint string "type-vX.Y.Z" (a compatible, different version).
+func BumpHint(s string) (string, bool) {
+	ht, err := hint.ParseHint(s)
+	if err != nil {
+		return "", false
+	}
+	v := ht.Version()
+	n, err := hint.ParseHint(fmt.Sprintf("%s-v%d.%d.%d", ht.Type(), v.Major(), v.Minor(), v.Patch()+2))
+	if err != nil {
+		return "", false
+	}
+	return n.String(), true
+}
+
+// BumpHints rewrites the "_hint" member of the top-level object (deep=false) or of every object (deep=true).
+func BumpHints(v any, deep bool, top bool) any {
+	switch x := v.(type) {
+	case map[string]any:
+		m := make(map[string]any, len(x))
+		for k, e := range x {
+			if k == "_hint" && (top || deep) {
+				if s, ok := e.(string); ok {
+					if b, ok := BumpHint(s); ok {
+						m[k] = b
+						continue
+					}
+				}
+			}
+			if deep {
+				m[k] = BumpHints(e, deep, false)
+			} else {
+				m[k] = e
+			}
+		}
+		return m
+	case []any:
+		if !deep {
+			return x
+		}
+		l := make([]any, len(x))
+		for i := range x {
+			l[i] = BumpHints(x[i], deep, false)
+		}
+		return l
+	}
+	return v
+}
